@@ -124,6 +124,8 @@ def gen_mibdump(rng, tier):
         scn['borrow'] = sorted(rng.sample(names + ['NO-SUCH-MIB'], rng.choice([1, 2])))
     if rng.random() < 0.08:
         scn['requested'].append('NO-SUCH-MIB')
+    if rng.random() < 0.06 and fmt != 'null':
+        scn['blockdir'] = rng.choice(names)
     u = rng.random()
     if u < 0.04:
         scn['usage'] = rng.choice(['no-names', 'bad-option', 'bad-format', 'bad-optlevel'])
@@ -197,6 +199,13 @@ def run_mibdump(scn):
                         f.write('# previous\n' if fmt == 'pysnmp' else '{"previous": true}\n')
                     t = core.EPOCH0 - 100 + (-50 if i % 2 else 50)   # alternately older and newer than the source
                     os.utime(p, (t, t))
+        if scn.get('blockdir') and sfx:
+            # a directory sits where a module's file should go
+            with core.unhooked():
+                bd_ = os.path.join(dst, scn['blockdir'] + sfx)
+                if os.path.isfile(bd_):
+                    os.unlink(bd_)
+                os.makedirs(bd_, exist_ok=True)
         old_index = None
         if '--build-index' in scn['flags'] and fmt == 'json' and scn['dest'] == 'populated':
             old_index = {'compliance': {'1.3.6.1.4.1.31337.9': ['ELSEWHERE-MIB']}, 'enterprise': {'1.3.6.1.4.1.31337': ['ELSEWHERE-MIB']},
@@ -583,7 +592,7 @@ def shrink(scn):
         s = copy.deepcopy(scn)
         s.pop('faults')
         yield s
-    for k in ('index_dir', 'normalised_mtime', 'fast_tables', 'odd_names'):
+    for k in ('index_dir', 'normalised_mtime', 'fast_tables', 'odd_names', 'blockdir'):
         if k in scn:
             s = copy.deepcopy(scn)
             s.pop(k)
